@@ -1,3 +1,4 @@
+import Sparrow.Proofs.UniversalFnEquiv
 import Sparrow.Proofs.StokesFnEquiv
 import Sparrow.Proofs.StokesLemmas
 import Sparrow.Proofs.StokesConstants
@@ -110,3 +111,68 @@ theorem stokesIntegration_eq (cut : ℝ) (pI pJ : Nat → Nat → ℝ) (nI nJ : 
   Sparrow.stokesIntegration_eq cut pI pJ nI nJ area jp1 jp2 jc1 jc2
 
 end Sparrow.Props.C05.StokesFn
+
+namespace Sparrow.Props.C05.Universal
+open Sparrow Sparrow.Generated.UniversalFn Sparrow.Generated.StokesFn
+
+/-- `_coincidence_check(p0, p1)` (recognised, inner `break`) = "some vertex of one patch lies within `thres` of a vertex of the
+    other" — the model's `coincide` with the roles as `universal_form_factor` passes them (`p0` = receiver, `p1` = source) -/
+theorem coincidenceCheck_eq (thres : ℝ) (p0 p1 : Nat → Nat → ℝ) (n0 n1 : Nat) :
+    coincidenceCheck thres p0 p1 n0 n1 = coincide thres (ptsOf p1) (ptsOf p0) n1 n0 :=
+  Sparrow.coincidenceCheck_eq thres p0 p1 n0 n1
+
+/-- the test is symmetric in the two patches -/
+theorem coincidenceCheck_symm (thres : ℝ) (p0 p1 : Nat → Nat → ℝ) (n0 n1 : Nat) :
+    coincidenceCheck thres p0 p1 n0 n1 = coincidenceCheck thres p1 p0 n1 n0 :=
+  Sparrow.coincidenceCheck_symm thres p0 p1 n0 n1
+
+/-- **`universal_form_factor` (recognised) dispatches exactly as the model's `chooseIntegrator`**: patches with a common vertex go
+    to the Nusselt integrator with 64 samples, all others to the contour integral, whose regenerated text equals `stokesFF` -/
+theorem universalFormFactor_eq (thres cut : ℝ) (nus : (Nat → Nat → ℝ) → (Nat → ℝ) → (Nat → Nat → ℝ) → (Nat → ℝ) → Nat → ℝ)
+    (sp : Nat → Nat → ℝ) (ns : Nat) (snrm : Nat → ℝ) (area : ℝ) (rp : Nat → Nat → ℝ) (nr : Nat) (rnrm : Nat → ℝ)
+    (jp1 jp2 : Nat → Nat → ℝ) (jc1 jc2 : Nat → Nat → Nat) :
+    universalFormFactor thres cut nus sp ns snrm area rp nr rnrm jp1 jp2 jc1 jc2 =
+      match chooseIntegrator thres (ptsOf sp) (ptsOf rp) ns nr with
+      | .nusselt => nus sp snrm rp rnrm 64
+      | .stokes => stokesFF cut (ptsOf sp) (ptsOf rp) ns nr area :=
+  Sparrow.universalFormFactor_eq thres cut nus sp ns snrm area rp nr rnrm jp1 jp2 jc1 jc2
+
+/-- the scratch arrays of `stokes_integration` (`np.empty`) never influence the result -/
+theorem universalFormFactor_scratch (thres cut : ℝ) (nus : (Nat → Nat → ℝ) → (Nat → ℝ) → (Nat → Nat → ℝ) → (Nat → ℝ) → Nat → ℝ)
+    (sp : Nat → Nat → ℝ) (ns : Nat) (snrm : Nat → ℝ) (area : ℝ) (rp : Nat → Nat → ℝ) (nr : Nat) (rnrm : Nat → ℝ)
+    (jp1 jp2 jp1' jp2' : Nat → Nat → ℝ) (jc1 jc2 jc1' jc2' : Nat → Nat → Nat) :
+    universalFormFactor thres cut nus sp ns snrm area rp nr rnrm jp1 jp2 jc1 jc2 =
+      universalFormFactor thres cut nus sp ns snrm area rp nr rnrm jp1' jp2' jc1' jc2' :=
+  Sparrow.universalFormFactor_scratch thres cut nus sp ns snrm area rp nr rnrm jp1 jp2 jp1' jp2' jc1 jc2 jc1' jc2'
+
+/-- **`patch2patch_ff_universal` (recognised): a pair that is not listed as visible keeps exactly 0** -/
+theorem patch2patchFFUniversal_unlisted (thres cut : ℝ)
+    (nus : (Nat → Nat → ℝ) → (Nat → ℝ) → (Nat → Nat → ℝ) → (Nat → ℝ) → Nat → ℝ)
+    (pts : Nat → Nat → Nat → ℝ) (nv : Nat) (nrm : Nat → Nat → ℝ) (areas : Nat → ℝ) (nvis : Nat) (vis : Nat → Nat → Nat)
+    (jp1 jp2 : Nat → Nat → ℝ) (jc1 jc2 : Nat → Nat → Nat) (a b : Nat)
+    (h : ∀ v, v < nvis → ¬ (vis v 0 = a ∧ vis v 1 = b)) :
+    patch2patchFFUniversal thres cut nus pts nv nrm areas nvis vis jp1 jp2 jc1 jc2 a b = 0 :=
+  Sparrow.patch2patchFFUniversal_unlisted thres cut nus pts nv nrm areas nvis vis jp1 jp2 jc1 jc2 a b h
+
+/-- **a listed pair holds the dispatched form factor of that pair** (whatever else the list contains, duplicates included) -/
+theorem patch2patchFFUniversal_listed (thres cut : ℝ)
+    (nus : (Nat → Nat → ℝ) → (Nat → ℝ) → (Nat → Nat → ℝ) → (Nat → ℝ) → Nat → ℝ)
+    (pts : Nat → Nat → Nat → ℝ) (nv : Nat) (nrm : Nat → Nat → ℝ) (areas : Nat → ℝ) (nvis : Nat) (vis : Nat → Nat → Nat)
+    (jp1 jp2 : Nat → Nat → ℝ) (jc1 jc2 : Nat → Nat → Nat) (a b v : Nat) (hv : v < nvis) (ha : vis v 0 = a) (hb : vis v 1 = b) :
+    patch2patchFFUniversal thres cut nus pts nv nrm areas nvis vis jp1 jp2 jc1 jc2 a b =
+      universalFormFactor thres cut nus (fun k q => pts a k q) nv (fun q => nrm a q) (areas a) (fun k q => pts b k q) nv
+        (fun q => nrm b q) jp1 jp2 jc1 jc2 :=
+  Sparrow.patch2patchFFUniversal_listed thres cut nus pts nv nrm areas nvis vis jp1 jp2 jc1 jc2 a b v hv ha hb
+
+/-- the matrix written by the regenerated loop is the model's `ffMatrix` over the listed pairs -/
+theorem patch2patchFFUniversal_eq_ffMatrix (thres cut : ℝ)
+    (nus : (Nat → Nat → ℝ) → (Nat → ℝ) → (Nat → Nat → ℝ) → (Nat → ℝ) → Nat → ℝ)
+    (pts : Nat → Nat → Nat → ℝ) (nv : Nat) (nrm : Nat → Nat → ℝ) (areas : Nat → ℝ) (nvis : Nat) (vis : Nat → Nat → Nat)
+    (jp1 jp2 : Nat → Nat → ℝ) (jc1 jc2 : Nat → Nat → Nat) (a b : Nat) :
+    patch2patchFFUniversal thres cut nus pts nv nrm areas nvis vis jp1 jp2 jc1 jc2 a b =
+      ffMatrix ((List.range nvis).map fun v => (vis v 0, vis v 1))
+        (fun i j => universalFormFactor thres cut nus (fun k q => pts i k q) nv (fun q => nrm i q) (areas i) (fun k q => pts j k q) nv
+          (fun q => nrm j q) jp1 jp2 jc1 jc2) a b :=
+  Sparrow.patch2patchFFUniversal_eq_ffMatrix thres cut nus pts nv nrm areas nvis vis jp1 jp2 jc1 jc2 a b
+
+end Sparrow.Props.C05.Universal
